@@ -127,7 +127,7 @@ func checkCase(t *vk.T, c *gj5s.Case) {
 		gj5s.NormalizeSchema(wn)
 		gj5s.NormalizeSchema(gn)
 		if !proto.Equal(wn, gn) {
-			t.Violation("schema-differs|"+sigScope(c)+"|"+diffClause(wn.(*schema_j5pb.RootSchema), gn.(*schema_j5pb.RootSchema)), fmt.Sprintf("schema %s read back from the compiled proto differs from the source schema\nexpected: %s\nread back: %s\n%s", k, txt(wn), txt(gn), src), src, txt(wn), txt(gn))
+			t.Violation("schema-differs|"+pairScope(c, wn.(*schema_j5pb.RootSchema), gn.(*schema_j5pb.RootSchema))+"|"+diffClause(wn.(*schema_j5pb.RootSchema), gn.(*schema_j5pb.RootSchema)), fmt.Sprintf("schema %s read back from the compiled proto differs from the source schema\nexpected: %s\nread back: %s\n%s", k, txt(wn), txt(gn), src), src, txt(wn), txt(gn))
 			return
 		}
 	}
@@ -239,6 +239,9 @@ func diffClause(w, g *schema_j5pb.RootSchema) string {
 func run(r *vk.Runner) {
 	var cases []*gj5s.Case
 	cases = append(cases, gj5s.SingleFieldCases()...)
+	if !r.Quick() {
+		cases = append(cases, gj5s.PairFieldCases()...)
+	}
 	cases = append(cases, gj5s.NestingCases()...)
 	cases = append(cases, gj5s.EnumCases()...)
 	cases = append(cases, gj5s.ReferenceCases()...)
@@ -260,6 +263,37 @@ func run(r *vk.Runner) {
 }
 
 // sigScope: the family, refined by the rule family for the rule matrix.
+// pairScope: for the field-pair family the scope is that of the field that differs,
+// spelled like the single-field family (so one defect has one signature).
+func pairScope(c *gj5s.Case, w, g *schema_j5pb.RootSchema) string {
+	if c.Family != "field-pairs" {
+		return sigScope(c)
+	}
+	parts := strings.Split(strings.TrimPrefix(c.ID, "pair:"), ":")
+	// type names may contain ':' (integer:INT32): containers are the plain / array / map parts
+	var types, conts []string
+	cur := ""
+	for _, p := range parts {
+		if p == "plain" || p == "array" || p == "map" {
+			types = append(types, cur)
+			conts = append(conts, p)
+			cur = ""
+			continue
+		}
+		if cur != "" {
+			cur += ":"
+		}
+		cur += p
+	}
+	wp, gp := w.GetObject().GetProperties(), g.GetObject().GetProperties()
+	for i := range wp {
+		if i < len(gp) && i < len(types) && !proto.Equal(wp[i], gp[i]) {
+			return "single-field|type=" + types[i] + "|container=" + conts[i]
+		}
+	}
+	return sigScope(c)
+}
+
 func sigScope(c *gj5s.Case) string {
 	if c.Family == "rules" || c.Family == "single-field" {
 		return c.Coord
